@@ -6,7 +6,8 @@
   entry of the `$defs` that `toJSONSchemaSingle` attaches to the root.  The one place where a reference is written
   BEFORE its definition exists is `convertLazy` meeting an inner schema whose conversion is still in progress and that
   has a registry ID (`#/$defs/<id>` now, `c.defs[id]` when that conversion returns): the invariant carries such names
-  as "pending on the call stack", and the stack is empty at the end.
+  as "pending on the call stack", and the stack is empty at the end.  (`lazyRef`'s own `$defs` entries — /repo 16f278d,
+  for a target that is not the root — are entered into `refs` and `defs` at once, like the automatic names.)
 -/
 import Gozod.Model.JsonSchemaRefs
 namespace Gozod.C07
@@ -108,9 +109,9 @@ theorem inv_foldKids (g : Graph) (s : List Nat) (f : St → Nat → Option St)
     · rename_i st1 h1
       exact inv_foldKids g s f hf ks st1 st' (hf st k st1 h h1) he
 
-theorem inv_lazyKid (g : Graph) (s : List Nat) (conv : St → Nat → Option St)
+theorem inv_lazyKid (g : Graph) (root : Nat) (s : List Nat) (conv : St → Nat → Option St)
     (hc : ∀ st k st', Inv g s st → conv st k = some st' → Inv g s st')
-    (st : St) (m : Nat) (st' : St) (h : Inv g s st) (he : lazyKid g conv st m = some st') : Inv g s st' := by
+    (st : St) (m : Nat) (st' : St) (h : Inv g s st) (he : lazyKid g root conv st m = some st') : Inv g s st' := by
   unfold lazyKid at he
   split at he
   · rename_i hseen
@@ -126,7 +127,11 @@ theorem inv_lazyKid (g : Graph) (s : List Nat) (conv : St → Nat → Option St)
       · rename_i name hr
         cases he
         exact inv_emit g s st name h (Or.inl (h.refsDefs _ name hr))
-      · cases he; exact h
+      · split at he
+        · cases he; exact h
+        · cases he
+          have hr := inv_register g s st (g m).base h
+          exact inv_emit g s _ _ hr.1 (Or.inl hr.2)
   · exact hc st m st' h he
 
 theorem inv_stepRegister (g : Graph) (s : List Nat) (o : Opts) (nd : Node) (st : St) (h : Inv g s st) :
@@ -156,12 +161,12 @@ theorem inv_stepAuto (g : Graph) (s : List Nat) (o : Opts) (nd : Node) (st : St)
   · exact ⟨h, fun x hx => hx⟩
 
 /-- `convert` keeps the invariant, for the stack it was entered with. -/
-theorem inv_convert (g : Graph) (o : Opts) :
+theorem inv_convert (g : Graph) (o : Opts) (root : Nat) :
     ∀ (fuel : Nat) (s : List Nat) (st : St) (n : Nat) (st' : St),
-      Inv g s st → convert g o fuel s st n = some st' → Inv g s st'
+      Inv g s st → convert g o root fuel s st n = some st' → Inv g s st'
   | 0, _, _, _, _, _, he => by simp [convert] at he
   | fuel + 1, s, st, n, st', h, he => by
-    have ih := inv_convert g o fuel (n :: s)
+    have ih := inv_convert g o root fuel (n :: s)
     have hc := inv_counts g s st (fun b => if b = (g n).base then st.counts b + 1 else st.counts b) h
     simp only [convert] at he
     split at he
@@ -183,7 +188,7 @@ theorem inv_convert (g : Graph) (o : Opts) :
         have h0 := inv_push g s _ n hc
         have h2 : Inv g (n :: s) st2 := by
           split at hsub
-          · exact inv_foldKids g (n :: s) _ (fun st k st' hi he => inv_lazyKid g (n :: s) _ ih st k st' hi he) _ _ st2 h0 hsub
+          · exact inv_foldKids g (n :: s) _ (fun st k st' hi he => inv_lazyKid g root (n :: s) _ ih st k st' hi he) _ _ st2 h0 hsub
           · exact inv_foldKids g (n :: s) _ ih _ _ st2 h0 hsub
         have h4 := inv_stepId g (n :: s) (g n) _ (inv_stepRegister g (n :: s) o (g n) st2 h2)
         have h5 := inv_stepAuto g (n :: s) o (g n) _ h4.1
@@ -194,7 +199,7 @@ theorem inv_convert (g : Graph) (o : Opts) :
 theorem c07_refs_resolve (g : Graph) (o : Opts) (fuel root : Nat) (st : St)
     (h : convertTop g o fuel root = some st) : ∀ name, name ∈ st.out → name ∈ st.defs := by
   intro name hn
-  have hi := inv_convert g o fuel [] {} root st (inv_init g) h
+  have hi := inv_convert g o root fuel [] {} root st (inv_init g) h
   rcases hi.outOk name hn with hd | ⟨m, hm, _⟩
   · exact hd
   · simp at hm
@@ -202,7 +207,7 @@ theorem c07_refs_resolve (g : Graph) (o : Opts) (fuel root : Nat) (st : St)
 /-- … and every automatic name in `refs` (what a later `seen` hit or `convertLazy` would emit) is a key too. -/
 theorem c07_refs_table_resolves (g : Graph) (o : Opts) (fuel root : Nat) (st : St)
     (h : convertTop g o fuel root = some st) : ∀ b name, st.refs b = some name → name ∈ st.defs :=
-  (inv_convert g o fuel [] {} root st (inv_init g) h).refsDefs
+  (inv_convert g o root fuel [] {} root st (inv_init g) h).refsDefs
 
 /-! ### the hypotheses are inhabited: a recursive tree under a parent, with a registry ID, Reused:"ref"
 
@@ -220,5 +225,18 @@ example : (convertTop exGraph { reusedRef := true } 10 0).map (fun st => (st.out
       = some (["def2", "Node", "Node"], ["def3", "Node", "def2", "def1"]) := by decide
 example : (convertTop exGraph {} 10 0).map (fun st => (st.out, st.defs)) = some (["Node", "Node"], ["Node"]) := by decide
 example : (convertTop exGraph { cyclesThrow := true } 10 0).isNone = true := by decide
+
+/-! a recursive node WITHOUT an ID below a parent (0 = Object{tree: 1}, 1 = Object{next: 2}, 2 = Lazy(→ 1)): the Lazy's
+    target is not the root, so it gets its own `$defs` entry; converted on its own (root = 1) the answer is `#`.
+    (Same names as the real converter's documents, /repo 16f278d.) -/
+def exGraph2 : Graph
+  | 0 => { base := 0, composite := true, kids := [1] }
+  | 1 => { base := 1, composite := true, kids := [2] }
+  | 2 => { base := 2, isLazy := true, kids := [1] }
+  | n => { base := n }
+
+example : (convertTop exGraph2 {} 10 0).map (fun st => (st.out, st.defs)) = some (["def1"], ["def1"]) := by decide
+example : (convertTop exGraph2 {} 10 1).map (fun st => (st.out, st.defs)) = some ([], []) := by decide
+example : (convertTop exGraph2 { reusedRef := true } 10 0).map (fun st => (st.out, st.defs)) = some (["def1"], ["def2", "def1"]) := by decide
 
 end Gozod.C07
